@@ -417,6 +417,8 @@ class World:
                 raise exc.ContainerSetupError(
                     'injected', app_abort.AbortedReason.SCHEDULER)
             raise RuntimeError('injected configure failure')
+        pre_exists = bool(ent and ent.get('uname')) and os.path.isdir(
+            os.path.join(self.tm_env.apps_dir, ent['uname']))
         try:
             cdir = real_app_cfg.configure(tm_env, event_file, runtime,
                                           runtime_param)
@@ -439,7 +441,7 @@ class World:
                 'inst': inst, 'gen': gen, 'configures': 1, 'finished': None,
                 'had_running': False, 'failed': False,
                 'last_configure': self._by(cname),
-                'key': self._uid_key(ent)}
+                'key': self._uid_key(ent), 'incarnation': 1}
         else:
             if rec['inst'] != inst or rec['gen'] != gen:
                 # provenance: do the 77 bits gen_uniqueid keeps (13 bits of
@@ -454,6 +456,10 @@ class World:
                           'generation %s' % (inst, gen, cname, rec['gen']))
             rec['configures'] += 1
             rec['last_configure'] = self._by(cname)
+            if not pre_exists:
+                # the directory of that name had been cleaned up: this is a
+                # new container of the same cache entry
+                rec['incarnation'] += 1
             self.probes['reconfigured_existing_dir'] += 1
         self.probes['configures'] += 1
         self.log.ev('configure', inst, gen, cname)
@@ -536,7 +542,9 @@ class World:
         if not os.path.exists(path):
             io.open(path, 'wb').close()
             self.tombstones.append(path)
-            self.tomb_origin[path] = cname
+            rec = self.containers.get(cname)
+            self.tomb_origin[path] = (cname,
+                                      rec['incarnation'] if rec else 0)
         self.probes['tombstones_written'] += 1
         self.log.ev('tombstone', name)
 
@@ -573,13 +581,17 @@ class World:
                 return func + '-in-sync'
             return '%s-on-%s-event' % (func, self.ctx_what)
         if actor == 'monitor':
-            origin = self.cur_tomb_origin
-            if origin is None:
+            if self.cur_tomb_origin is None:
                 return 'other'
+            origin, incarnation = self.cur_tomb_origin
+            r_c = self.containers.get(cname)
             if origin == cname:
+                if r_c is not None and r_c['incarnation'] != incarnation:
+                    # written by a container of the same cache entry whose
+                    # directory was cleaned up and configured again since
+                    return 'tombstone-of-earlier-incarnation'
                 return 'tombstone-of-own-container'
             r_o = self.containers.get(origin)
-            r_c = self.containers.get(cname)
             if r_o and r_c and r_o['inst'] == r_c['inst'] and \
                     r_o['gen'] < r_c['gen']:
                 return 'tombstone-of-older-generation'
